@@ -16,6 +16,48 @@ Inductive bout := BNorm (reg:rvalue) | BExit (v:rvalue).
 Definition val_of (o:bout) : rvalue := match o with BNorm reg => res_of reg | BExit v => v end.
 Definition oc (o:bout) : outcome := match o with BNorm reg => ONormal reg | BExit v => OExit v end.
 
+Inductive lkind := KForEach | KCount | KApply | KSelect | KFindIf.
+Definition kvars (k:lkind) (i:nat) (x:rvalue) : list (string*rvalue) :=
+  match k with KForEach => [("_foreachindex", RNum (Z.of_nat i)); ("_x", x)] | _ => [("_x", x)] end.
+Definition kwith (k:lkind) : bool := match k with KForEach => true | _ => false end.
+Definition kinit (k:lkind) : rvalue :=
+  match k with KForEach => RNil | KCount => RNum 0 | KApply | KSelect => RArr [] | KFindIf => RNum (-1) end.
+(* the step functions of RefSem.eval_binary, verbatim *)
+Definition kstep (k:lkind) : rvalue -> nat -> rvalue -> rvalue -> option (bool * rvalue) :=
+  match k with
+  | KForEach => fun _ _ v _ => Some (true, match v with RNone => RNil | _ => v end)
+  | KCount => fun _ _ v acc => match v, acc with
+                               | RBool t, RNum c => Some (true, RNum (if t then c + 1 else c)%Z)
+                               | RNil, _ => Some (true, acc)
+                               | _, _ => None end
+  | KSelect => fun x _ v acc => match v, acc with
+                                | RBool t, RArr out => Some (true, RArr (if t then out ++ [x] else out))
+                                | RNil, _ => Some (true, acc)
+                                | _, _ => None end
+  | KApply => fun _ _ v acc => match v, acc with RNone, _ => None | _, RArr out => Some (true, RArr (out ++ [v])) | _, _ => None end
+  | KFindIf => fun _ i v acc => match v with
+                                | RBool true => Some (false, RNum (Z.of_nat i))
+                                | RBool false => Some (true, acc)
+                                | _ => None end
+  end.
+(* what the machine's behaviour pops: a boolean for count / select / findIf, any value for apply, nothing for forEach *)
+Definition kok (k:lkind) (reg:rvalue) : Prop :=
+  match k with KForEach => True | KApply => reg <> RNone | _ => exists t, reg = RBool t end.
+(* the behaviour of the loop frame that stands for "array all, round i, accumulated acc" *)
+Definition kb (k:lkind) (all:list rvalue) (i:nat) (acc:rvalue) (b:behavior) : Prop :=
+  match k, acc with
+  | KForEach, _ => b = BForEach (map cv all) i
+  | KCount, RNum cnt => b = BCount (map cv all) i cnt
+  | KApply, RArr out => b = BApply (map cv all) (map cv out) i
+  | KSelect, RArr out => b = BSelect (map cv all) (map cv out) i
+  | KFindIf, RNum m => m = (-1)%Z /\ b = BFindIf (map cv all) i
+  | _, _ => False end.
+
+Definition kname (k:lkind) : string :=
+  match k with KForEach => "foreach" | KCount => "count" | KApply => "apply" | KSelect => "select" | KFindIf => "findif" end.
+(* operand order: code then array (forEach, count) or array then code (apply, select, findIf) *)
+Definition kca (k:lkind) : bool := match k with KForEach | KCount => true | _ => false end.
+
 (* the first instruction of a (non-empty) block is a plain push or a variable read: true of every block whose first
    statement does not start with a nular operator; the step that takes a loop round again executes it *)
 Definition leaf_first (b:list stmt) : Prop :=
@@ -42,13 +84,18 @@ Inductive zev : sstate -> expr -> rvalue -> sstate -> Prop :=
 | ZThenElse s n a b c x y s1 s2 out s3 : lower n = "then" -> zev s a (RIf c) s1 -> zev s1 b (RArr [RCode x; RCode y]) s2 ->
     zblock (enter s2 []) RNil (if c then x else y) out s3 -> zev s (EBinary n a b) (val_of out) (pop_scope s3)
 | ZExitSkip s n a b x s1 s2 : lower n = "exitwith" -> zev s a (RIf false) s1 -> zev s1 b (RCode x) s2 -> zev s (EBinary n a b) RNil s2
-(* forEach: one scope per element, holding _forEachIndex and _x; the value of the loop is the value of the last round
-   (nil when there was none, or when the last round ended in an assignment); exitWith in the body ends the whole loop *)
-| ZForEachEmpty s n a x body s1 s2 : lower n = "foreach" -> zev s a (RCode body) s1 -> zev s1 x (RArr []) s2 ->
-    zev s (EBinary n a x) RNil s2
-| ZForEach s n a x body x0 arr s1 s2 acc s3 : lower n = "foreach" -> leaf_first body ->
+(* loops over an array with a code body - forEach, count, apply, select, findIf: one scope per element holding _x (and
+   _forEachIndex), an accumulator per kind (ziter); exitWith in the body ends the whole loop with the handler's value *)
+| ZLoopEmptyCA s n a x body k s1 s2 : kname k = lower n -> kca k = true -> zev s a (RCode body) s1 -> zev s1 x (RArr []) s2 ->
+    zev s (EBinary n a x) (kinit k) s2
+| ZLoopEmptyAC s n a x body k s1 s2 : kname k = lower n -> kca k = false -> zev s a (RArr []) s1 -> zev s1 x (RCode body) s2 ->
+    zev s (EBinary n a x) (kinit k) s2
+| ZLoopCA s n a x body x0 arr k s1 s2 acc s3 : kname k = lower n -> kca k = true -> leaf_first body ->
     zev s a (RCode body) s1 -> zev s1 x (RArr (x0 :: arr)) s2 ->
-    ziter s2 (x0 :: arr) 0 body RNil acc s3 -> zev s (EBinary n a x) acc s3
+    ziter k s2 (x0 :: arr) 0 body (kinit k) acc s3 -> zev s (EBinary n a x) acc s3
+| ZLoopAC s n a x body x0 arr k s1 s2 acc s3 : kname k = lower n -> kca k = false -> leaf_first body ->
+    zev s a (RArr (x0 :: arr)) s1 -> zev s1 x (RCode body) s2 ->
+    ziter k s2 (x0 :: arr) 0 body (kinit k) acc s3 -> zev s (EBinary n a x) acc s3
 with zevs : sstate -> list expr -> list rvalue -> sstate -> Prop :=
 | ZNil s : zevs s [] [] s
 | ZCons s e v s1 l vs s2 : zev s e v s1 -> nonnil v -> zevs s1 l vs s2 -> zevs s (e :: l) (v :: vs) s2
@@ -65,14 +112,18 @@ with zblock : sstate -> rvalue -> list stmt -> bout -> sstate -> Prop :=
 (* the statement `if c exitWith {..}` with a true condition: the handler runs in its own scope, the rest of this scope does not *)
 | ZBExit s reg n l x b s1 s2 out s3 rest : lower n = "exitwith" -> zev s l (RIf true) s1 -> zev s1 x (RCode b) s2 ->
     zblock (enter s2 []) RNil b out s3 -> zblock s reg (SExpr (EBinary n l x) :: rest) (BExit (val_of out)) (pop_scope s3)
-with ziter : sstate -> list rvalue -> nat -> list stmt -> rvalue -> rvalue -> sstate -> Prop :=
-| ZIterNil s i body acc : ziter s [] i body acc acc s
-| ZIterCons s x rest i body acc reg s1 acc' s' :
-    zblock (enter s [("_foreachindex", RNum (Z.of_nat i)); ("_x", x)]) (match i with O => RNil | _ => RNone end) body (BNorm reg) s1 ->
-    ziter (pop_scope s1) rest (S i) body (res_of reg) acc' s' -> ziter s (x :: rest) i body acc acc' s'
-| ZIterExit s x rest i body acc v s1 :
-    zblock (enter s [("_foreachindex", RNum (Z.of_nat i)); ("_x", x)]) (match i with O => RNil | _ => RNone end) body (BExit v) s1 ->
-    ziter s (x :: rest) i body acc v (pop_scope s1).
+with ziter : lkind -> sstate -> list rvalue -> nat -> list stmt -> rvalue -> rvalue -> sstate -> Prop :=
+| ZIterNil k s i body acc : ziter k s [] i body acc acc s
+| ZIterCons k s x rest i body acc reg s1 acc1 acc' s' :
+    zblock (enter s (kvars k i x)) (match i with O => RNil | _ => RNone end) body (BNorm reg) s1 ->
+    kstep k x i reg acc = Some (true, acc1) -> kok k reg ->
+    ziter k (pop_scope s1) rest (S i) body acc1 acc' s' -> ziter k s (x :: rest) i body acc acc' s'
+| ZIterStop k s x rest i body acc reg s1 acc1 :
+    zblock (enter s (kvars k i x)) (match i with O => RNil | _ => RNone end) body (BNorm reg) s1 ->
+    kstep k x i reg acc = Some (false, acc1) -> kok k reg -> ziter k s (x :: rest) i body acc acc1 (pop_scope s1)
+| ZIterExit k s x rest i body acc v s1 :
+    zblock (enter s (kvars k i x)) (match i with O => RNil | _ => RNone end) body (BExit v) s1 ->
+    ziter k s (x :: rest) i body acc v (pop_scope s1).
 
 Scheme zev_i := Induction for zev Sort Prop
   with zevs_i := Induction for zevs Sort Prop
@@ -83,10 +134,20 @@ Combined Scheme z_ind from zev_i, zevs_i, zstmt_i, zblock_i, ziter_i.
 
 Lemma zblock_val s reg b out s' : zblock s reg b out s' -> val_of out <> RNone.
 Proof. induction 1; cbn [val_of]; try assumption; match goal with |- res_of ?r <> _ => destruct r; discriminate end. Qed.
-Lemma ziter_val s arr i body acc acc' s' : ziter s arr i body acc acc' s' -> acc <> RNone -> acc' <> RNone.
+Lemma kstep_not_none k x i reg acc c a1 : kstep k x i reg acc = Some (c, a1) -> acc <> RNone -> a1 <> RNone.
 Proof.
-  induction 1; intros N; [exact N| |].
-  - apply IHziter. destruct reg; discriminate.
+  destruct k; cbn [kstep]; intros H N.
+  - inversion H; subst. destruct reg; discriminate.
+  - destruct reg; try discriminate H; [inversion H; subst; exact N|destruct acc; try discriminate H; inversion H; discriminate].
+  - destruct reg; try discriminate H; destruct acc; try discriminate H; inversion H; discriminate.
+  - destruct reg; try discriminate H; [inversion H; subst; exact N|destruct acc; try discriminate H; inversion H; discriminate].
+  - destruct reg as [| |[|]| | | | | | | | | | |]; try discriminate H; inversion H; subst; [discriminate|exact N].
+Qed.
+Lemma ziter_val k s arr i body acc acc' s' : ziter k s arr i body acc acc' s' -> acc <> RNone -> acc' <> RNone.
+Proof.
+  induction 1; intros N; [exact N| | |].
+  - apply IHziter. eapply kstep_not_none; eassumption.
+  - eapply kstep_not_none; eassumption.
   - match goal with H : zblock _ _ _ (BExit _) _ |- _ => exact (zblock_val _ _ _ _ _ H) end.
 Qed.
 
@@ -95,7 +156,8 @@ Proof.
   destruct 1; try discriminate;
     try (match goal with H : nonnil _ |- _ => exact (proj2 H) end);
     try (match goal with H : zblock _ _ _ _ _ |- _ => exact (zblock_val _ _ _ _ _ H) end);
-    try (match goal with H : ziter _ _ _ _ _ _ _ |- _ => apply (ziter_val _ _ _ _ _ _ _ H); discriminate end).
+    try (match goal with H : ziter ?k _ _ _ _ _ _ _ |- _ => apply (ziter_val _ _ _ _ _ _ _ _ H); destruct k; discriminate end);
+    try (match goal with |- kinit ?k <> _ => destruct k; discriminate end).
   - match goal with H : pev _ _ _ _ |- _ => exact (proj2 (data_not_nil _ (pev_data _ _ _ _ H))) end.
   - match goal with H : pure_unary _ _ = Some _ |- _ => intros ->; exact (pure_unary_nonnil _ _ _ H eq_refl) end.
   - match goal with H : pure_binary _ _ _ = Some _ |- _ => intros ->; exact (pure_binary_nonnil _ _ _ _ H eq_refl) end.
@@ -235,54 +297,6 @@ Lemma logmsg_upd_cur r a d : logmsg (upd_cur r a) d = upd_cur (logmsg r d) a.
 Proof.
   unfold logmsg, upd_cur. destruct (Z.leb (fst d) 1); destruct (r_active r) eqn:A; cbn; rewrite ?A; reflexivity.
 Qed.
-
-Definition next_round (f:frame) (arr:list value) (idx:nat) : frame :=
-  set_vars (set_pos (set_exit f (Some (BForEach arr (S idx)))) 0)
-           [("_foreachindex", VNum (Z.of_nat (S idx))); ("_x", nth_val arr (S idx))].
-
-Lemma next_round_eq f arr idx :
-  set_pos (set_exit (set_vars (set_pos f (S (f_pos f))) [("_foreachindex", VNum (Z.of_nat (S idx))); ("_x", nth_val arr (S idx))])
-                    (Some (BForEach arr (S idx)))) 0 = next_round f arr idx.
-Proof. destruct f; reflexivity. Qed.
-
-(* the pass that finds the loop body finished, takes the next element and executes the first instruction of the new round *)
-Lemma loop_step_real r c f rest0 arr idx i0 code' top below r3 c5 :
-  Good r c -> c_frames c = f :: rest0 -> f_pos f = length (f_code f) -> f_exit f = Some (BForEach arr idx) -> f_die f = false ->
-  Nat.eqb (S idx) (length arr) = false -> f_code f = i0 :: code' ->
-  c_values c = top ++ below -> length below = f_base f ->
-  exec_instr i0 r (set_values (set_frames c (set_pos (next_round f arr idx) 1 :: rest0)) below) = Ok (r3, c5) ->
-  r_err (upd_cur r3 c5) = false ->
-  do_iter r = Ok (Executed (set_msgs (upd_cur r3 c5) [])).
-Proof.
-  intros G EF EP EX ED NE EC EV LB EI NErr. pose proof G as (C & X & St & E & M & MR & SU).
-  unfold do_iter. rewrite X, C, SU, EF, St.
-  destruct frame_fuel_SS as [k Hk]. rewrite Hk.
-  cbn [frame_next]. rewrite EF.
-  assert (A1 : at_end f = false) by (unfold at_end; apply Nat.eqb_neq; lia).
-  assert (A2 : at_end (set_pos f (S (f_pos f))) = true) by (unfold at_end; cbn; apply Nat.eqb_eq; lia).
-  rewrite A1, A2. cbn [f_exit set_pos f_die]. rewrite EX, ED. cbn [andb negb].
-  cbn [enact]. rewrite NE. cbn [bindr].
-  match goal with |- context [top_code_empty ?x] => set (c4 := x) end.
-  assert (C4 : c4 = set_values (set_frames c (next_round f arr idx :: rest0)) below).
-  { subst c4. unfold restart_with, clear_values, upd_top.
-    cbn [c_frames set_frames c_values set_values f_base set_pos set_vars set_exit].
-    rewrite EV, app_length, <- LB. replace (length top + length below - length below) with (length top) by lia.
-    rewrite skipn_app, skipn_all, Nat.sub_diag. cbn [skipn app]. rewrite Nat.sub_diag. cbn [skipn].
-    unfold next_round. destruct f; destruct c; reflexivity. }
-  rewrite C4. clear C4 c4.
-  assert (TE : top_code_empty (set_values (set_frames c (next_round f arr idx :: rest0)) below) = false).
-  { unfold top_code_empty. cbn [c_frames set_values set_frames next_round f_code set_vars set_pos set_exit]. rewrite EC. reflexivity. }
-  rewrite TE. cbn [c_frames set_values set_frames].
-  assert (B1 : at_end (next_round f arr idx) = false) by (unfold at_end; reflexivity).
-  assert (B2 : at_end (set_pos (next_round f arr idx) (S (f_pos (next_round f arr idx)))) = false).
-  { unfold at_end. cbn [f_pos f_code next_round set_vars set_pos set_exit]. rewrite EC. reflexivity. }
-  rewrite B1, B2. cbn [f_exit set_pos next_round set_vars set_exit andb]. cbn [bindr]. rewrite E.
-  unfold current_instr. cbn [c_frames set_frames set_values f_code f_pos set_pos set_vars set_exit next_round Nat.sub].
-  rewrite EC. cbn [nth_error]. rewrite MR. cbn [Z.eqb].
-  match goal with |- context [exec_instr i0 r ?x] => replace x with (set_values (set_frames c (set_pos (next_round f arr idx) 1 :: rest0)) below) by (destruct c; reflexivity) end.
-  rewrite EI. cbn [bindr]. rewrite NErr. reflexivity.
-Qed.
-
 Lemma err_upd_cur r c : r_err (upd_cur r c) = r_err r.
 Proof. unfold upd_cur. destruct (r_active r); reflexivity. Qed.
 Lemma err_logmsg_warn r c : r_err (upd_cur (logmsg r d_VariableNotFound) c) = r_err r.
@@ -290,14 +304,54 @@ Proof. rewrite err_upd_cur. reflexivity. Qed.
 Lemma ns_get_upd_cur r c ns n : ns_get (upd_cur r c) ns n = ns_get r ns n.
 Proof. unfold ns_get. rewrite nss_upd_cur. reflexivity. Qed.
 
-Lemma loop_back r c f rest0 arr idx i0 code' top below :
-  Good r c -> c_frames c = f :: rest0 -> f_pos f = length (f_code f) -> f_exit f = Some (BForEach arr idx) -> f_die f = false ->
-  Nat.eqb (S idx) (length arr) = false -> f_code f = i0 :: code' -> ((exists v, i0 = IPush v) \/ (exists n, i0 = IGet n)) ->
-  c_values c = top ++ below -> length below = f_base f ->
-  do_iter r = do_iter (upd_cur r (set_values (set_frames c (next_round f arr idx :: rest0)) below)).
+(* the loop frame at the start of a round: position 0, the new behaviour, the new variables *)
+Definition round_frame (f:frame) (b':behavior) (vars:list (string*value)) : frame :=
+  set_vars (set_pos (set_exit f (Some b')) 0) vars.
+
+(* what the frame's behaviour does when the body has run out and another round follows: it asks for a restart, and after
+   frame::next has reset the position the context is the one at the start of the next round *)
+Definition goes_round (r:rt) (c:context) (f:frame) (rest0:list frame) (b b':behavior) (vars:list (string*value)) (below:list value) : Prop :=
+  exists c2, enact b r (set_frames c (set_pos f (S (f_pos f)) :: rest0)) = Ok (BrSeekStart, b', r, c2) /\
+    clear_values (upd_top (upd_top c2 (fun f0 => set_exit f0 (Some b'))) (fun f0 => set_pos f0 0)) =
+    set_values (set_frames c (round_frame f b' vars :: rest0)) below.
+
+(* the pass that finds the loop body finished, takes the next element and executes the first instruction of the new round *)
+Lemma loop_step_real r c f rest0 b b' vars i0 code' below r3 c5 :
+  Good r c -> c_frames c = f :: rest0 -> f_pos f = length (f_code f) -> f_exit f = Some b -> f_die f = false ->
+  f_code f = i0 :: code' -> goes_round r c f rest0 b b' vars below ->
+  exec_instr i0 r (set_values (set_frames c (set_pos (round_frame f b' vars) 1 :: rest0)) below) = Ok (r3, c5) ->
+  r_err (upd_cur r3 c5) = false ->
+  do_iter r = Ok (Executed (set_msgs (upd_cur r3 c5) [])).
 Proof.
-  intros G EF EP EX ED NE EC LF EV LB. pose proof G as (C & X & St & E & M & MR & SU).
-  set (fV := next_round f arr idx). set (cV := set_values (set_frames c (fV :: rest0)) below).
+  intros G EF EP EX ED EC (c2 & HE & HC) EI NErr. pose proof G as (C & X & St & E & M & MR & SU).
+  unfold do_iter. rewrite X, C, SU, EF, St.
+  destruct frame_fuel_SS as [k Hk]. rewrite Hk.
+  cbn [frame_next]. rewrite EF.
+  assert (A1 : at_end f = false) by (unfold at_end; apply Nat.eqb_neq; lia).
+  assert (A2 : at_end (set_pos f (S (f_pos f))) = true) by (unfold at_end; cbn; apply Nat.eqb_eq; lia).
+  rewrite A1, A2. cbn [f_exit set_pos f_die]. rewrite EX, ED. cbn [andb negb].
+  rewrite HE. cbn [bindr]. rewrite HC.
+  assert (TE : top_code_empty (set_values (set_frames c (round_frame f b' vars :: rest0)) below) = false).
+  { unfold top_code_empty. cbn [c_frames set_values set_frames round_frame f_code set_vars set_pos set_exit]. rewrite EC. reflexivity. }
+  rewrite TE. cbn [c_frames set_values set_frames].
+  assert (B1 : at_end (round_frame f b' vars) = false) by (unfold at_end; reflexivity).
+  assert (B2 : at_end (set_pos (round_frame f b' vars) (S (f_pos (round_frame f b' vars)))) = false).
+  { unfold at_end. cbn [f_pos f_code round_frame set_vars set_pos set_exit]. rewrite EC. reflexivity. }
+  rewrite B1, B2. cbn [f_exit set_pos round_frame set_vars set_exit andb]. cbn [bindr]. rewrite E.
+  unfold current_instr. cbn [c_frames set_frames set_values f_code f_pos set_pos set_vars set_exit round_frame Nat.sub].
+  rewrite EC. cbn [nth_error]. rewrite MR. cbn [Z.eqb].
+  match goal with |- context [exec_instr i0 r ?x] => replace x with (set_values (set_frames c (set_pos (round_frame f b' vars) 1 :: rest0)) below) by (destruct c; reflexivity) end.
+  rewrite EI. cbn [bindr]. rewrite NErr. reflexivity.
+Qed.
+
+Lemma loop_back r c f rest0 b b' vars i0 code' below :
+  Good r c -> c_frames c = f :: rest0 -> f_pos f = length (f_code f) -> f_exit f = Some b -> f_die f = false ->
+  f_code f = i0 :: code' -> ((exists v, i0 = IPush v) \/ (exists n, i0 = IGet n)) ->
+  goes_round r c f rest0 b b' vars below ->
+  do_iter r = do_iter (upd_cur r (set_values (set_frames c (round_frame f b' vars :: rest0)) below)).
+Proof.
+  intros G EF EP EX ED EC LF GR. pose proof G as (C & X & St & E & M & MR & SU).
+  set (fV := round_frame f b' vars). set (cV := set_values (set_frames c (fV :: rest0)) below).
   assert (GV : Good (upd_cur r cV) cV) by (apply (good_upd r c cV G); exact SU).
   set (cin := set_values (set_frames c (set_pos fV 1 :: rest0)) below).
   assert (NV : nth_error (f_code fV) (f_pos fV) = Some i0) by (cbn; rewrite EC; reflexivity).
@@ -329,15 +383,19 @@ Proof.
         rewrite logmsg_upd_cur, upd_cur_twice. reflexivity.
 Qed.
 
-(* the pass that finds the loop body finished after the last element: the loop frame completes like any other *)
-Lemma complete_loop r c f fc rest arr idx top vals :
+(* what the behaviour does when the loop is over: it lets the frame complete; the frame's value is the top of what
+   the behaviour leaves in the region (nil if nothing) *)
+Definition loop_over (r:rt) (c:context) (f:frame) (rest0:list frame) (b:behavior) (top2 vals:list value) : Prop :=
+  exists b', enact b r (set_frames c (set_pos f (S (f_pos f)) :: rest0)) =
+             Ok (BrOk, b', r, set_values (set_frames c (set_pos f (S (f_pos f)) :: rest0)) (top2 ++ vals)).
+
+Lemma complete_loop r c f fc rest b top2 vals :
   Good r c -> r_defects r = [] -> c_frames c = f :: fc :: rest -> f_pos f = length (f_code f) ->
-  f_exit f = Some (BForEach arr idx) -> f_die f = false -> Nat.eqb (S idx) (length arr) = true ->
-  c_values c = top ++ vals -> length vals = f_base f ->
-  let c4 := set_values (set_frames c (fc :: rest)) (match top with [] => VNil | x :: _ => x end :: vals) in
+  f_exit f = Some b -> f_die f = false -> loop_over r c f (fc :: rest) b top2 vals -> length vals = f_base f ->
+  let c4 := set_values (set_frames c (fc :: rest)) (match top2 with [] => VNil | x :: _ => x end :: vals) in
   Steps r (upd_cur r c4) /\ Good (upd_cur r c4) c4.
 Proof.
-  intros G D EF EP EX ED NE EV LB c4. pose proof G as (C & X & St & E & M & MR & SU).
+  intros G D EF EP EX ED (b' & HE) LB c4. pose proof G as (C & X & St & E & M & MR & SU).
   split; [|apply (good_upd r c c4 G); exact SU].
   eapply StepsCont; [|apply StepsRefl].
   unfold do_iter. rewrite X, C, SU, EF, St.
@@ -345,25 +403,24 @@ Proof.
   assert (A1 : at_end f = false) by (unfold at_end; apply Nat.eqb_neq; lia).
   assert (A2 : at_end (set_pos f (S (f_pos f))) = true) by (unfold at_end; cbn; apply Nat.eqb_eq; lia).
   rewrite A1, A2. cbn [f_exit set_pos f_die]. rewrite EX, ED. cbn [andb negb].
-  cbn [enact]. rewrite NE. cbn [bindr]. rewrite E.
-  unfold upd_top. cbn [c_frames set_frames length]. rewrite Nat.eqb_refl.
+  rewrite HE. cbn [bindr]. rewrite E.
+  unfold upd_top. cbn [c_frames set_frames set_values length]. rewrite Nat.eqb_refl.
   unfold defect. rewrite D. cbn [existsb].
   match goal with |- context [pop_value ?x] => set (c1 := x) end.
-  destruct top as [|x top].
-  - cbn [app] in EV.
+  destruct top2 as [|x top2].
+  - cbn [app] in c1.
     assert (P : pop_value c1 = None).
-    { unfold pop_value. cbn [c_values c1 set_frames c_frames f_base set_pos set_exit]. rewrite EV. destruct vals; [reflexivity|].
-      destruct (Nat.leb_spec (length (v :: vals)) (f_base f)) as [L|L]; [reflexivity|lia]. }
+    { unfold pop_value. cbn [c_values c1 set_frames set_values c_frames f_base set_pos set_exit]. destruct vals as [|v0 vals0]; [reflexivity|].
+      destruct (Nat.leb_spec (length (v0 :: vals0)) (f_base f)) as [L|L]; [reflexivity|lia]. }
     rewrite P. unfold clear_values, pop_frame. cbn [c_frames c1 set_frames c_values f_base set_pos set_exit tl set_values].
-    rewrite EV, LB, Nat.sub_diag. cbn [skipn]. unfold push_value. subst c4. cbn. reflexivity.
-  - cbn [app] in EV.
-    assert (P : pop_value c1 = Some (x, set_values c1 (top ++ vals))).
-    { apply (pop_value_top c1 (set_exit (set_pos f (S (f_pos f))) (Some (BForEach arr (S idx)))) (fc :: rest)); [reflexivity|exact EV|cbn; rewrite app_length; lia]. }
+    rewrite LB, Nat.sub_diag. cbn [skipn]. unfold push_value. subst c4. cbn. reflexivity.
+  - cbn [app] in c1.
+    assert (P : pop_value c1 = Some (x, set_values c1 (top2 ++ vals))).
+    { apply (pop_value_top c1 (set_exit (set_pos f (S (f_pos f))) (Some b')) (fc :: rest)); [reflexivity|reflexivity|cbn; rewrite app_length; lia]. }
     rewrite P. unfold clear_values, pop_frame. cbn [c_frames c1 set_frames c_values f_base set_pos set_exit tl set_values].
-    rewrite app_length, <- LB. replace (length top + length vals - length vals) with (length top) by lia.
-    rewrite skipn_app, skipn_all, Nat.sub_diag. cbn [skipn app]. unfold push_value. cbn. reflexivity.
+    rewrite app_length, <- LB. replace (length top2 + length vals - length vals) with (length top2) by lia.
+    rewrite skipn_app, skipn_all, Nat.sub_diag. cbn [skipn app]. unfold push_value. subst c4. cbn. reflexivity.
 Qed.
-
 
 Lemma neq_by_frames r r' c c' : cur r = Some c -> cur r' = Some c' -> length (c_frames c') <> length (c_frames c) -> r' <> r.
 Proof. intros C C' N E. subst r'. rewrite C in C'. inversion C'; subst. apply N. reflexivity. Qed.
@@ -384,14 +441,148 @@ Qed.
 Lemma nth_val_map l i : nth_val (map cv l) i = cv (nth i l RNil).
 Proof. unfold nth_val. change VNil with (cv RNil). apply map_nth. Qed.
 
-(* the state at the start of a round: the loop frame at position 0 with the element bound, its behaviour at that index *)
-Definition IterRuns (s:sstate) (arr:list rvalue) (i:nat) (body:list stmt) (acc acc':rvalue) (s':sstate) : Prop :=
+(* the region of the loop frame when the body has run out, given the body's value *)
+Lemma region_top reg top : reg_rep reg top -> reg <> RNone -> exists top', top = cv reg :: top'.
+Proof. destruct top as [|y top']; cbn; [intros -> N; contradiction|intros [-> _] _; eauto]. Qed.
+
+Lemma restart_context c f rest0 b' vars below vs :
+  length below = f_base f ->
+  clear_values (upd_top (upd_top (restart_with (set_values (set_frames c (set_pos f (S (f_pos f)) :: rest0)) (vs ++ below)) vars)
+                                 (fun f0 => set_exit f0 (Some b'))) (fun f0 => set_pos f0 0)) =
+  set_values (set_frames c (round_frame f b' vars :: rest0)) below.
+Proof.
+  intros LB. unfold restart_with, clear_values, upd_top.
+  cbn [c_frames set_frames c_values set_values f_base set_pos set_vars set_exit].
+  rewrite app_length, <- LB. replace (length vs + length below - length below) with (length vs) by lia.
+  rewrite skipn_app, skipn_all, Nat.sub_diag. cbn [skipn app]. rewrite Nat.sub_diag. cbn [skipn].
+  unfold round_frame. destruct f; destruct c; reflexivity.
+Qed.
+
+Lemma set_values_same c fs vals : c_values c = vals -> set_frames c fs = set_values (set_frames c fs) vals.
+Proof. intros <-. destruct c; reflexivity. Qed.
+
+Lemma kind_round k all i x x2 rest2 acc acc1 reg b r c f rest0 top below :
+  skipn i all = x :: x2 :: rest2 -> kb k all i acc b -> kstep k x i reg acc = Some (true, acc1) -> kok k reg ->
+  c_frames c = f :: rest0 -> c_values c = top ++ below -> length below = f_base f -> reg_rep reg top ->
+  exists b', kb k all (S i) acc1 b' /\ goes_round r c f rest0 b b' (mvars (kvars k (S i) x2)) below.
+Proof.
+  intros SK KB KS KO EF EV LB RR.
+  pose proof (skipn_cons_length _ _ _ _ SK) as LEN.
+  assert (NE : Nat.eqb (S i) (length (map cv all)) = false) by (rewrite map_length, LEN; apply Nat.eqb_neq; cbn [length]; lia).
+  destruct (skipn_cons_nth _ _ _ _ SK) as [NX0 SK1]. destruct (skipn_cons_nth _ _ _ _ SK1) as [NX _].
+  assert (NV : nth_val (map cv all) (S i) = cv x2) by (rewrite nth_val_map, NX; reflexivity).
+  assert (NV0 : nth_val (map cv all) i = cv x) by (rewrite nth_val_map, NX0; reflexivity).
+  set (c1 := set_frames c (set_pos f (S (f_pos f)) :: rest0)).
+  assert (POP : forall v top', top = v :: top' -> pop_value c1 = Some (v, set_values c1 (top' ++ below))).
+  { intros v top' ->. apply (pop_value_top c1 (set_pos f (S (f_pos f))) rest0); [reflexivity|exact EV|cbn; rewrite app_length; lia]. }
+  destruct k; cbn [kb] in KB.
+  - (* forEach *) subst b. cbn [kstep] in KS. inversion KS; subst acc1. eexists. split; [reflexivity|].
+    eexists. split.
+    + cbn [enact]. rewrite NE. reflexivity.
+    + rewrite NV. rewrite (set_values_same c _ _ EV). apply restart_context; exact LB.
+  - (* count *) destruct acc as [|cnt| | | | | | | | | | | |]; try contradiction. subst b. destruct KO as [t ->].
+    cbn [kstep] in KS. inversion KS; subst acc1.
+    destruct (region_top _ _ RR) as [top' ->]; [discriminate|]. eexists. split; [reflexivity|].
+    eexists. split.
+    + cbn [enact]. fold c1. rewrite (POP _ _ eq_refl). cbn [cv]. rewrite NE. reflexivity.
+    + rewrite NV. apply restart_context; exact LB.
+  - (* apply *) destruct acc as [| | | |out| | | | | | | | |]; try contradiction. subst b.
+    destruct (region_top _ _ RR KO) as [top' ->].
+    assert (KS' : acc1 = RArr (out ++ [reg])) by (cbn [kstep] in KS; destruct reg; inversion KS; try reflexivity; exfalso; apply KO; reflexivity).
+    subst acc1. eexists. split; [cbn [kb]; rewrite map_app; reflexivity|].
+    eexists. split.
+    + cbn [enact]. fold c1. rewrite (POP _ _ eq_refl). rewrite NE. reflexivity.
+    + rewrite NV. apply restart_context; exact LB.
+  - (* select *) destruct acc as [| | | |out| | | | | | | | |]; try contradiction. subst b. destruct KO as [t ->].
+    cbn [kstep] in KS. inversion KS; subst acc1.
+    destruct (region_top _ _ RR) as [top' ->]; [discriminate|].
+    destruct t.
+    + eexists. split; [cbn [kb]; rewrite map_app; cbn [map]; rewrite <- NV0; reflexivity|].
+      eexists. split.
+      * cbn [enact]. fold c1. rewrite (POP _ _ eq_refl). cbn [cv]. rewrite NE. reflexivity.
+      * rewrite NV. apply restart_context; exact LB.
+    + eexists. split; [reflexivity|].
+      eexists. split.
+      * cbn [enact]. fold c1. rewrite (POP _ _ eq_refl). cbn [cv]. rewrite NE. reflexivity.
+      * rewrite NV. apply restart_context; exact LB.
+  - (* findIf *) destruct acc as [|m| | | | | | | | | | | |]; try contradiction. destruct KB as [-> ->]. destruct KO as [t ->].
+    cbn [kstep] in KS. destruct t; inversion KS; subst acc1.
+    destruct (region_top _ _ RR) as [top' ->]; [discriminate|]. eexists. split; [split; reflexivity|].
+    eexists. split.
+    + cbn [enact]. fold c1. rewrite (POP _ _ eq_refl). cbn [cv]. rewrite NE. reflexivity.
+    + rewrite NV. apply restart_context; exact LB.
+Qed.
+
+(* the round after which the loop is over: the last element, or findIf's hit *)
+Lemma kind_over k all i x acc acc1 reg b r c f rest0 top below cont :
+  kb k all i acc b -> kstep k x i reg acc = Some (cont, acc1) -> kok k reg -> nth i all RNil = x ->
+  (cont = true -> S i = length all) ->
+  c_frames c = f :: rest0 -> c_values c = top ++ below -> length below = f_base f -> reg_rep reg top ->
+  exists top2, loop_over r c f rest0 b top2 below /\ (match top2 with [] => VNil | y :: _ => y end) = cv acc1.
+Proof.
+  intros KB KS KO NX0 LAST EF EV LB RR.
+  assert (NV0 : nth_val (map cv all) i = cv x) by (rewrite nth_val_map, NX0; reflexivity).
+  set (c1 := set_frames c (set_pos f (S (f_pos f)) :: rest0)).
+  assert (POP : forall v top', top = v :: top' -> pop_value c1 = Some (v, set_values c1 (top' ++ below))).
+  { intros v top' ->. apply (pop_value_top c1 (set_pos f (S (f_pos f))) rest0); [reflexivity|exact EV|cbn; rewrite app_length; lia]. }
+  assert (NE : cont = true -> Nat.eqb (S i) (length (map cv all)) = true) by (intros H; rewrite map_length; apply Nat.eqb_eq; auto).
+  destruct k; cbn [kb] in KB.
+  - (* forEach *) subst b. cbn [kstep] in KS. inversion KS; subst acc1 cont. exists top. split.
+    + eexists. cbn [enact]. rewrite (NE eq_refl). fold c1. rewrite <- EV. unfold c1. rewrite <- (set_values_same c _ _ eq_refl). reflexivity.
+    + destruct top as [|y top']; cbn in RR; [rewrite RR; reflexivity|destruct RR as [-> _]; destruct reg; reflexivity].
+  - (* count *) destruct acc as [|cnt| | | | | | | | | | | |]; try contradiction. subst b. destruct KO as [t ->].
+    cbn [kstep] in KS. inversion KS; subst acc1 cont.
+    destruct (region_top _ _ RR) as [top' ->]; [discriminate|].
+    exists (VNum (if t then cnt + 1 else cnt)%Z :: top'). split; [|reflexivity].
+    eexists. cbn [enact]. fold c1. rewrite (POP _ _ eq_refl). cbn [cv]. rewrite (NE eq_refl). reflexivity.
+  - (* apply *) destruct acc as [| | | |out| | | | | | | | |]; try contradiction. subst b.
+    destruct (region_top _ _ RR KO) as [top' ->].
+    assert (KS' : acc1 = RArr (out ++ [reg]) /\ cont = true) by (cbn [kstep] in KS; destruct reg; inversion KS; try (split; reflexivity); exfalso; apply KO; reflexivity).
+    destruct KS' as [-> ->].
+    exists (VArr (map cv out ++ [cv reg]) :: top'). split; [|cbn [cv]; rewrite map_app; reflexivity].
+    eexists. cbn [enact]. fold c1. rewrite (POP _ _ eq_refl). rewrite (NE eq_refl). reflexivity.
+  - (* select *) destruct acc as [| | | |out| | | | | | | | |]; try contradiction. subst b. destruct KO as [t ->].
+    cbn [kstep] in KS. inversion KS; subst acc1 cont.
+    destruct (region_top _ _ RR) as [top' ->]; [discriminate|].
+    exists (VArr (if t then map cv out ++ [nth_val (map cv all) i] else map cv out) :: top'). split.
+    + eexists. cbn [enact]. fold c1. rewrite (POP _ _ eq_refl). cbn [cv]. rewrite (NE eq_refl). reflexivity.
+    + destruct t; cbn [cv]; [rewrite map_app, NV0; reflexivity|reflexivity].
+  - (* findIf *) destruct acc as [|m| | | | | | | | | | | |]; try contradiction. destruct KB as [-> ->]. destruct KO as [t ->].
+    destruct (region_top _ _ RR) as [top' ->]; [discriminate|].
+    cbn [kstep] in KS. destruct t; inversion KS; subst acc1 cont.
+    + exists (VNum (Z.of_nat i) :: top'). split; [|reflexivity].
+      eexists. cbn [enact]. fold c1. rewrite (POP _ _ eq_refl). cbn [cv]. reflexivity.
+    + exists (VNum (-1) :: top'). split; [|reflexivity].
+      eexists. cbn [enact]. fold c1. rewrite (POP _ _ eq_refl). cbn [cv]. rewrite (NE eq_refl). reflexivity.
+Qed.
+
+(* the loop frame as the operator creates it *)
+Definition kbeh0 (k:lkind) (arrV:list value) : behavior :=
+  match k with
+  | KForEach => BForEach arrV 0 | KCount => BCount arrV 0 0 | KApply => BApply arrV [] 0
+  | KSelect => BSelect arrV [] 0 | KFindIf => BFindIf arrV 0 end.
+Definition kvars0 (k:lkind) (x:value) : list (string*value) :=
+  match k with KForEach => [("_x", x); ("_foreachindex", VNum 0)] | _ => [("_x", x)] end.
+Definition kframe (k:lkind) (ns:string) (body:list stmt) (all:list rvalue) (x0:rvalue) : frame :=
+  mk_frame ns (compile_block body) (Some (kbeh0 k (map cv all))) None (kvars0 k (cv x0)).
+Lemma kb_init k all : kb k all 0 (kinit k) (kbeh0 k (map cv all)).
+Proof. destruct k; cbn; auto. Qed.
+Lemma kvars0_match k x0 : vars_match (kvars k 0 x0) (kvars0 k (cv x0)).
+Proof.
+  destruct k; intros kk; cbn; try (destruct (String.eqb kk "_x"); reflexivity).
+  destruct (String.eqb kk "_x") eqn:Ex, (String.eqb kk "_foreachindex") eqn:Ei; try reflexivity.
+  apply String.eqb_eq in Ex, Ei. subst kk. discriminate Ei.
+Qed.
+
+(* the state at the start of a round: the loop frame at position 0 with the element bound, its behaviour at that index with
+   what has been accumulated so far *)
+Definition IterRuns (k:lkind) (s:sstate) (arr:list rvalue) (i:nat) (body:list stmt) (acc acc':rvalue) (s':sstate) : Prop :=
   match arr with
   | [] => True
   | x :: rest0 =>
-    forall r c f fc frest below allarr,
-      AtM (enter s [("_foreachindex", RNum (Z.of_nat i)); ("_x", x)]) (match i with O => RNil | _ => RNone end) r c f (fc :: frest) below ->
-      f_code f = compile_block body -> f_pos f = 0 -> f_exit f = Some (BForEach (map cv allarr) i) -> f_die f = false ->
+    forall r c f fc frest below allarr b,
+      AtM (enter s (kvars k i x)) (match i with O => RNil | _ => RNone end) r c f (fc :: frest) below ->
+      f_code f = compile_block body -> f_pos f = 0 -> f_exit f = Some b -> kb k allarr i acc b -> f_die f = false ->
       skipn i allarr = x :: rest0 -> leaf_first body -> f_ns f = f_ns fc -> f_base fc <= length below ->
       exists r' c' fc' rest', Steps r r' /\ r' <> r /\ Mach s' r' c' fc' rest' /\ c_values c' = cv acc' :: below /\
         kept fc fc' /\ Forall2 kept frest rest'
@@ -406,7 +597,7 @@ Theorem vm_runs_z :
          moved f f' /\ f_pos f' = f_pos f + length (flat_map compile_expr l) /\ Forall2 kept rest rest') /\ length l = length vs) /\
   (forall s reg st reg1 s1, zstmt s reg st reg1 s1 -> BlockRuns s reg (compile_stmt st) reg1 s1) /\
   (forall s reg b out s', zblock s reg b out s' -> BodyEnds s reg (compile_block b) out s') /\
-  (forall s arr i body acc acc' s', ziter s arr i body acc acc' s' -> IterRuns s arr i body acc acc' s').
+  (forall k s arr i body acc acc' s', ziter k s arr i body acc acc' s' -> IterRuns k s arr i body acc acc' s').
 Proof.
   apply z_ind.
   - (* pure *) intros s e v HE r c f rest pre post (G & EF & M & B & D) EC EP.
@@ -620,24 +811,7 @@ Proof.
       split; [cbn; rewrite (moved_base _ _ MV2), (moved_base _ _ MV1); lia|rewrite defects_upd_cur; exact D2].
     + split; [reflexivity|]. split; [eapply moved_trans; [exact MV1|eapply moved_trans; [exact MV2|apply moved_set_pos]]|].
       split; [cbn; rewrite P2, P1; lia|eapply kept_all_trans; eassumption].
-  - (* {..} forEach [] *) intros s n a b x s1 s2 HN HA IHa HB IHb r c f rest pre post MA EC EP.
-    rewrite compile_binary in *. rewrite !app_length. cbn [length]. rewrite <- !app_assoc in EC.
-    post_intro (IHa r c f rest pre (compile_expr b ++ [IBinary (lower n)] ++ post) MA EC EP) r1 c1 f1 rest1 S1 M1 EV1 MV1 P1 K1.
-    destruct (after_operands_code f f1 pre _ _ MV1 EC EP P1) as [EC1 EP1].
-    post_intro (IHb r1 c1 f1 rest1 (pre ++ compile_expr a) ([IBinary (lower n)] ++ post) M1 EC1 EP1) r2 c2 f2 rest2 S2 M2 EV2 MV2 P2 K2.
-    destruct (after_operands_code f1 f2 _ _ _ MV2 EC1 EP1 P2) as [EC2 EP2].
-    destruct M2 as (G2 & EF2 & MM2 & B2 & D2). destruct MA as (_ & _ & _ & B & _).
-    rewrite EV1 in EV2.
-    set (c0 := set_values (set_frames c2 (set_pos f2 (S (f_pos f2)) :: rest2)) (c_values c)).
-    destruct (binary_run r2 c2 f2 rest2 _ _ (lower n) (cv (RCode x)) (cv (RArr [])) (c_values c) c0 VNil G2 EF2 EC2 EP2 EV2) as [S3 G3].
-    { rewrite (moved_base _ _ MV2), (moved_base _ _ MV1); exact B. } { discriminate. } { discriminate. } { rewrite lower_idem, HN. reflexivity. }
-    { destruct G2 as (_ & _ & _ & _ & _ & _ & SU); exact SU. }
-    eexists _, _, _, rest2. split; [eapply steps_trans; [exact S1|eapply steps_trans; [exact S2|exact S3]]|]. split.
-    + split; [exact G3|]. split; [reflexivity|]. split; [apply match_upd, match_set_pos; exact MM2|].
-      split; [cbn; rewrite (moved_base _ _ MV2), (moved_base _ _ MV1); lia|rewrite defects_upd_cur; exact D2].
-    + split; [reflexivity|]. split; [eapply moved_trans; [exact MV1|eapply moved_trans; [exact MV2|apply moved_set_pos]]|].
-      split; [cbn; rewrite P2, P1; lia|eapply kept_all_trans; eassumption].
-  - (* {..} forEach [x0, ..] *) intros s n a x body x0 arr s1 s2 acc s3 HN LF HA IHa HX IHx HI IHi r c f rest pre post MA EC EP.
+  - (* {..} forEach / count []  *) intros s n a x body k s1 s2 HN HK HA IHa HX IHx r c f rest pre post MA EC EP.
     rewrite compile_binary in *. rewrite !app_length. cbn [length]. rewrite <- !app_assoc in EC.
     post_intro (IHa r c f rest pre (compile_expr x ++ [IBinary (lower n)] ++ post) MA EC EP) r1 c1 f1 rest1 S1 M1 EV1 MV1 P1 K1.
     destruct (after_operands_code f f1 pre _ _ MV1 EC EP P1) as [EC1 EP1].
@@ -646,26 +820,96 @@ Proof.
     destruct M2 as (G2 & EF2 & MM2 & B2 & D2). destruct MA as (_ & _ & _ & B & _).
     rewrite EV1 in EV2.
     set (c0 := set_values (set_frames c2 (set_pos f2 (S (f_pos f2)) :: rest2)) (c_values c)).
-    set (lf := mk_frame (cur_ns c0) (compile_block body) (Some (BForEach (map cv (x0 :: arr)) 0)) None [("_x", cv x0); ("_foreachindex", VNum 0)]).
+    destruct (binary_run r2 c2 f2 rest2 _ _ (lower n) (cv (RCode body)) (cv (RArr [])) (c_values c) c0 (cv (kinit k)) G2 EF2 EC2 EP2 EV2) as [S3 G3].
+    { rewrite (moved_base _ _ MV2), (moved_base _ _ MV1); exact B. } { discriminate. } { discriminate. }
+    { rewrite lower_idem, <- HN. destruct k; try discriminate HK; reflexivity. }
+    { destruct G2 as (_ & _ & _ & _ & _ & _ & SU); exact SU. }
+    eexists _, _, _, rest2. split; [eapply steps_trans; [exact S1|eapply steps_trans; [exact S2|exact S3]]|]. split.
+    + split; [exact G3|]. split; [reflexivity|]. split; [apply match_upd, match_set_pos; exact MM2|].
+      split; [cbn; rewrite (moved_base _ _ MV2), (moved_base _ _ MV1); lia|rewrite defects_upd_cur; exact D2].
+    + split; [reflexivity|]. split; [eapply moved_trans; [exact MV1|eapply moved_trans; [exact MV2|apply moved_set_pos]]|].
+      split; [cbn; rewrite P2, P1; lia|eapply kept_all_trans; eassumption].
+  - (* [] apply / select / findIf {..} *) intros s n a x body k s1 s2 HN HK HA IHa HX IHx r c f rest pre post MA EC EP.
+    rewrite compile_binary in *. rewrite !app_length. cbn [length]. rewrite <- !app_assoc in EC.
+    post_intro (IHa r c f rest pre (compile_expr x ++ [IBinary (lower n)] ++ post) MA EC EP) r1 c1 f1 rest1 S1 M1 EV1 MV1 P1 K1.
+    destruct (after_operands_code f f1 pre _ _ MV1 EC EP P1) as [EC1 EP1].
+    post_intro (IHx r1 c1 f1 rest1 (pre ++ compile_expr a) ([IBinary (lower n)] ++ post) M1 EC1 EP1) r2 c2 f2 rest2 S2 M2 EV2 MV2 P2 K2.
+    destruct (after_operands_code f1 f2 _ _ _ MV2 EC1 EP1 P2) as [EC2 EP2].
+    destruct M2 as (G2 & EF2 & MM2 & B2 & D2). destruct MA as (_ & _ & _ & B & _).
+    rewrite EV1 in EV2.
+    set (c0 := set_values (set_frames c2 (set_pos f2 (S (f_pos f2)) :: rest2)) (c_values c)).
+    destruct (binary_run r2 c2 f2 rest2 _ _ (lower n) (cv (RArr [])) (cv (RCode body)) (c_values c) c0 (cv (kinit k)) G2 EF2 EC2 EP2 EV2) as [S3 G3].
+    { rewrite (moved_base _ _ MV2), (moved_base _ _ MV1); exact B. } { discriminate. } { discriminate. }
+    { rewrite lower_idem, <- HN. destruct k; try discriminate HK; reflexivity. }
+    { destruct G2 as (_ & _ & _ & _ & _ & _ & SU); exact SU. }
+    eexists _, _, _, rest2. split; [eapply steps_trans; [exact S1|eapply steps_trans; [exact S2|exact S3]]|]. split.
+    + split; [exact G3|]. split; [reflexivity|]. split; [apply match_upd, match_set_pos; exact MM2|].
+      split; [cbn; rewrite (moved_base _ _ MV2), (moved_base _ _ MV1); lia|rewrite defects_upd_cur; exact D2].
+    + split; [reflexivity|]. split; [eapply moved_trans; [exact MV1|eapply moved_trans; [exact MV2|apply moved_set_pos]]|].
+      split; [cbn; rewrite P2, P1; lia|eapply kept_all_trans; eassumption].
+  - (* {..} forEach / count [x0, ..] *) intros s n a x body x0 arr k s1 s2 acc s3 HN HK LF HA IHa HX IHx HI IHi r c f rest pre post MA EC EP.
+    rewrite compile_binary in *. rewrite !app_length. cbn [length]. rewrite <- !app_assoc in EC.
+    post_intro (IHa r c f rest pre (compile_expr x ++ [IBinary (lower n)] ++ post) MA EC EP) r1 c1 f1 rest1 S1 M1 EV1 MV1 P1 K1.
+    destruct (after_operands_code f f1 pre _ _ MV1 EC EP P1) as [EC1 EP1].
+    post_intro (IHx r1 c1 f1 rest1 (pre ++ compile_expr a) ([IBinary (lower n)] ++ post) M1 EC1 EP1) r2 c2 f2 rest2 S2 M2 EV2 MV2 P2 K2.
+    destruct (after_operands_code f1 f2 _ _ _ MV2 EC1 EP1 P2) as [EC2 EP2].
+    destruct M2 as (G2 & EF2 & MM2 & B2 & D2). destruct MA as (_ & _ & _ & B & _).
+    rewrite EV1 in EV2.
+    set (c0 := set_values (set_frames c2 (set_pos f2 (S (f_pos f2)) :: rest2)) (c_values c)).
+    set (lf := kframe k (cur_ns c0) body (x0 :: arr) x0).
     destruct (binary_run r2 c2 f2 rest2 _ _ (lower n) (cv (RCode body)) (cv (RArr (x0 :: arr))) (c_values c)
                 (push_frame c0 lf) VNil G2 EF2 EC2 EP2 EV2) as [S3 G3].
-    { rewrite (moved_base _ _ MV2), (moved_base _ _ MV1); exact B. } { discriminate. } { discriminate. } { rewrite lower_idem, HN. reflexivity. }
+    { rewrite (moved_base _ _ MV2), (moved_base _ _ MV1); exact B. } { discriminate. } { discriminate. }
+    { rewrite lower_idem, <- HN. destruct k; try discriminate HK; reflexivity. }
     { destruct G2 as (_ & _ & _ & _ & _ & _ & SU); exact SU. }
     set (nf := set_base lf (length (c_values c))).
     cbn [IterRuns] in IHi.
-    destruct (IHi (upd_cur r2 (push_value (push_frame c0 lf) VNil)) (push_value (push_frame c0 lf) VNil) nf (set_pos f2 (S (f_pos f2))) rest2 (c_values c) (x0 :: arr))
+    destruct (IHi (upd_cur r2 (push_value (push_frame c0 lf) VNil)) (push_value (push_frame c0 lf) VNil) nf (set_pos f2 (S (f_pos f2))) rest2 (c_values c) (x0 :: arr)
+                  (kbeh0 k (map cv (x0 :: arr))))
       as (r4 & c4 & fc4 & rest4 & S4 & _ & M4 & EV4 & K4 & KR4).
     { split.
       - split; [exact G3|]. split; [reflexivity|]. split.
         + apply match_upd. destruct MM2 as [F N]. split; [|exact N]. cbn. inversion F as [|sc f0 scs fs FM F' E1 E2]; subst.
           constructor; [|constructor; [exact FM|exact F']].
-          split; [|split; [|reflexivity]].
-          * intros k. cbn. destruct (String.eqb k "_x") eqn:Ex, (String.eqb k "_foreachindex") eqn:Ei; try reflexivity.
-            apply String.eqb_eq in Ex, Ei. subst k. discriminate Ei.
-          * cbn. destruct FM as (_ & NS & _). unfold cur_ns_of. rewrite <- E1. exact NS.
+          split; [apply kvars0_match|split; [|reflexivity]].
+          cbn. destruct FM as (_ & NS & _). unfold cur_ns_of. rewrite <- E1. exact NS.
         + split; [cbn; lia|rewrite defects_upd_cur; exact D2].
       - split; [reflexivity|]. exists [VNil]. split; [reflexivity|]. split; [reflexivity|discriminate]. }
-    { reflexivity. } { reflexivity. } { reflexivity. } { reflexivity. } { reflexivity. } { exact LF. } { reflexivity. }
+    { reflexivity. } { reflexivity. } { reflexivity. } { apply kb_init. } { reflexivity. } { reflexivity. } { exact LF. } { reflexivity. }
+    { cbn. rewrite (moved_base _ _ MV2), (moved_base _ _ MV1); exact B. }
+    eexists _, _, fc4, rest4. split; [eapply steps_trans; [exact S1|eapply steps_trans; [exact S2|eapply steps_trans; [exact S3|exact S4]]]|].
+    split; [exact M4|]. split; [exact EV4|].
+    split; [eapply moved_trans; [exact MV1|eapply moved_trans; [exact MV2|eapply moved_trans; [apply (moved_set_pos f2 (S (f_pos f2)))|apply kept_moved; exact K4]]]|].
+    split; [rewrite (kept_pos _ _ K4); cbn; rewrite P2, P1; lia|eapply kept_all_trans; [exact K1|eapply kept_all_trans; eassumption]].
+  - (* [x0, ..] apply / select / findIf {..} *) intros s n a x body x0 arr k s1 s2 acc s3 HN HK LF HA IHa HX IHx HI IHi r c f rest pre post MA EC EP.
+    rewrite compile_binary in *. rewrite !app_length. cbn [length]. rewrite <- !app_assoc in EC.
+    post_intro (IHa r c f rest pre (compile_expr x ++ [IBinary (lower n)] ++ post) MA EC EP) r1 c1 f1 rest1 S1 M1 EV1 MV1 P1 K1.
+    destruct (after_operands_code f f1 pre _ _ MV1 EC EP P1) as [EC1 EP1].
+    post_intro (IHx r1 c1 f1 rest1 (pre ++ compile_expr a) ([IBinary (lower n)] ++ post) M1 EC1 EP1) r2 c2 f2 rest2 S2 M2 EV2 MV2 P2 K2.
+    destruct (after_operands_code f1 f2 _ _ _ MV2 EC1 EP1 P2) as [EC2 EP2].
+    destruct M2 as (G2 & EF2 & MM2 & B2 & D2). destruct MA as (_ & _ & _ & B & _).
+    rewrite EV1 in EV2.
+    set (c0 := set_values (set_frames c2 (set_pos f2 (S (f_pos f2)) :: rest2)) (c_values c)).
+    set (lf := kframe k (cur_ns c0) body (x0 :: arr) x0).
+    destruct (binary_run r2 c2 f2 rest2 _ _ (lower n) (cv (RArr (x0 :: arr))) (cv (RCode body)) (c_values c)
+                (push_frame c0 lf) VNil G2 EF2 EC2 EP2 EV2) as [S3 G3].
+    { rewrite (moved_base _ _ MV2), (moved_base _ _ MV1); exact B. } { discriminate. } { discriminate. }
+    { rewrite lower_idem, <- HN. destruct k; try discriminate HK; reflexivity. }
+    { destruct G2 as (_ & _ & _ & _ & _ & _ & SU); exact SU. }
+    set (nf := set_base lf (length (c_values c))).
+    cbn [IterRuns] in IHi.
+    destruct (IHi (upd_cur r2 (push_value (push_frame c0 lf) VNil)) (push_value (push_frame c0 lf) VNil) nf (set_pos f2 (S (f_pos f2))) rest2 (c_values c) (x0 :: arr)
+                  (kbeh0 k (map cv (x0 :: arr))))
+      as (r4 & c4 & fc4 & rest4 & S4 & _ & M4 & EV4 & K4 & KR4).
+    { split.
+      - split; [exact G3|]. split; [reflexivity|]. split.
+        + apply match_upd. destruct MM2 as [F N]. split; [|exact N]. cbn. inversion F as [|sc f0 scs fs FM F' E1 E2]; subst.
+          constructor; [|constructor; [exact FM|exact F']].
+          split; [apply kvars0_match|split; [|reflexivity]].
+          cbn. destruct FM as (_ & NS & _). unfold cur_ns_of. rewrite <- E1. exact NS.
+        + split; [cbn; lia|rewrite defects_upd_cur; exact D2].
+      - split; [reflexivity|]. exists [VNil]. split; [reflexivity|]. split; [reflexivity|discriminate]. }
+    { reflexivity. } { reflexivity. } { reflexivity. } { apply kb_init. } { reflexivity. } { reflexivity. } { exact LF. } { reflexivity. }
     { cbn. rewrite (moved_base _ _ MV2), (moved_base _ _ MV1); exact B. }
     eexists _, _, fc4, rest4. split; [eapply steps_trans; [exact S1|eapply steps_trans; [exact S2|eapply steps_trans; [exact S3|exact S4]]]|].
     split; [exact M4|]. split; [exact EV4|].
@@ -783,24 +1027,26 @@ Proof.
       * apply match_upd. destruct MM4 as [F N]. split; [|exact N]. inversion F as [|sc f0 scs fs FM F' E1 E2]; subst. cbn. rewrite <- E1. cbn. exact F'.
       * split; [cbn; rewrite (kept_base _ _ Kc), (kept_base _ _ Ka); lia|rewrite defects_upd_cur; exact D4].
     + split; [reflexivity|]. split; [eapply kept_trans; eassumption|eapply kept_all_trans; eassumption].
-  - (* no more rounds *) intros s i body acc. exact I.
-  - (* a round, then the rest *) intros s x rest0 i body acc reg s1 acc' s' HB IHb HI IHi.
-    cbn [IterRuns]. intros r c f fc frest below allarr A EC EP EX ED SK LF ENS HBf.
+  - (* no more rounds *) intros k s i body acc. exact I.
+  - (* a round, then the rest *) intros k s x rest0 i body acc reg s1 acc1 acc' s' HB IHb KS KO HI IHi.
+    cbn [IterRuns]. intros r c f fc frest below allarr b A EC EP EX KB ED SK LF ENS HBf.
     specialize (IHb r c f fc frest below [] A EC EP HBf). cbn in IHb.
     destruct IHb as (r1 & c1 & f1 & rest1 & S1 & A1 & MV1 & P1 & K1).
     inversion K1 as [|fa fc1 ra frest1 Ka Kb Ea Eb]; subst.
     destruct A as ((G0 & EF0 & _) & _).
     destruct A1 as ((G1 & EF1 & (F1 & N1) & B1 & D1) & LB1 & top1 & EV1 & RR1).
-    assert (XE : f_exit f1 = Some (BForEach (map cv allarr) i)) by (rewrite (moved_exit _ _ MV1); exact EX).
+    assert (XE : f_exit f1 = Some b) by (rewrite (moved_exit _ _ MV1); exact EX).
     assert (XD : f_die f1 = false) by (rewrite (moved_die _ _ MV1); exact ED).
     assert (XP : f_pos f1 = length (f_code f1)) by (rewrite P1, (moved_code _ _ MV1); reflexivity).
     pose proof (skipn_cons_length _ _ _ _ SK) as LEN.
     inversion F1 as [|sc1 f0 scs1 fs1 FM1 F1' E1 E2]; subst.
+    destruct (skipn_cons_nth _ _ _ _ SK) as [NX0 SK1].
     destruct rest0 as [|x2 rest2].
     + (* that was the last element *)
-      inversion HI; subst.
-      destruct (complete_loop r1 c1 f1 fc1 frest1 (map cv allarr) i top1 below G1 D1 EF1 XP XE XD) as [S2 G2].
-      { rewrite map_length, LEN. apply Nat.eqb_eq. cbn [length]. lia. } { exact EV1. } { exact LB1. }
+      destruct (kind_over k allarr i _ acc acc1 reg b r1 c1 f1 (fc1 :: frest1) top1 below true KB KS KO NX0) as (top2 & LO & HD).
+      { intros _. rewrite LEN. cbn [length]. lia. } { exact EF1. } { exact EV1. } { exact LB1. } { exact RR1. }
+      destruct (complete_loop r1 c1 f1 fc1 frest1 b top2 below G1 D1 EF1 XP XE XD LO LB1) as [S2 G2].
+      assert (EA : acc' = acc1 /\ s' = pop_scope s1) by (inversion HI; subst; split; reflexivity). destruct EA as [-> ->].
       eexists _, _, fc1, frest1. split; [eapply steps_trans; eassumption|]. split.
       { destruct G0 as (C0 & _). destruct G2 as (C2 & _). eapply neq_by_frames; [exact C0|exact C2|].
         cbn. rewrite EF0. cbn. rewrite (forall2_length _ _ _ Kb). lia. }
@@ -808,31 +1054,27 @@ Proof.
       { split; [exact G2|]. split; [reflexivity|]. split.
         - apply match_upd. split; [|exact N1]. cbn. rewrite <- E1. cbn. exact F1'.
         - split; [cbn; rewrite (kept_base _ _ Ka); lia|rewrite defects_upd_cur; exact D1]. }
-      split; [|split; assumption].
-      cbn. f_equal. destruct top1 as [|y top1]; cbn in RR1.
-      * rewrite RR1. reflexivity.
-      * destruct RR1 as [-> NN]. destruct reg; reflexivity.
+      split; [cbn; rewrite HD; reflexivity|split; assumption].
     + (* another element: the pass that goes round is the first pass of the next round *)
       destruct LF as (i0 & code' & LC & LL).
-      assert (NE : Nat.eqb (S i) (length (map cv allarr)) = false) by (rewrite map_length, LEN; apply Nat.eqb_neq; cbn [length]; lia).
       assert (EC1 : f_code f1 = i0 :: code') by (rewrite (moved_code _ _ MV1), EC; exact LC).
-      pose proof (loop_back r1 c1 f1 (fc1 :: frest1) (map cv allarr) i i0 code' top1 below G1 EF1 XP XE XD NE EC1 LL EV1 LB1) as LBk.
-      set (fV := next_round f1 (map cv allarr) i) in *.
+      destruct (kind_round k allarr i x x2 rest2 acc acc1 reg b r1 c1 f1 (fc1 :: frest1) top1 below SK KB KS KO EF1 EV1 LB1 RR1) as (b' & KB' & GR).
+      pose proof (loop_back r1 c1 f1 (fc1 :: frest1) b b' (mvars (kvars k (S i) x2)) i0 code' below G1 EF1 XP XE XD EC1 LL GR) as LBk.
+      set (fV := round_frame f1 b' (mvars (kvars k (S i) x2))) in *.
       set (cV := set_values (set_frames c1 (fV :: fc1 :: frest1)) below) in *.
-      destruct (skipn_cons_nth _ _ _ _ SK) as [_ SK1]. destruct (skipn_cons_nth _ _ _ _ SK1) as [NX SK2].
       cbn [IterRuns] in IHi.
-      destruct (IHi (upd_cur r1 cV) cV fV fc1 frest1 below allarr) as (r4 & c4 & fc4 & rest4 & S4 & N4 & M4 & EV4 & K4 & KR4).
+      destruct (IHi (upd_cur r1 cV) cV fV fc1 frest1 below allarr b') as (r4 & c4 & fc4 & rest4 & S4 & N4 & M4 & EV4 & K4 & KR4).
       { split.
         - split; [apply (good_upd r1 c1 cV G1); destruct G1 as (_ & _ & _ & _ & _ & _ & SU); exact SU|]. split; [reflexivity|]. split.
           + apply match_upd. split; [|exact N1]. cbn. rewrite <- E1. cbn. constructor; [|exact F1'].
             split; [|split; [|cbn; exact (proj2 (proj2 FM1))]].
-            * cbn. rewrite nth_val_map, NX. apply (vars_match_mvars [("_foreachindex", RNum (Z.of_nat (S i))); ("_x", x2)]).
+            * cbn. apply vars_match_mvars.
             * cbn. rewrite (moved_ns _ _ MV1), ENS, <- (kept_ns _ _ Ka).
               inversion F1' as [|sc2 f00 scs2 fs2 FM2 F1'' E3 E4]. destruct FM2 as (_ & NS2 & _).
               unfold cur_ns_of, pop_scope. cbn. rewrite <- E1. cbn. rewrite <- E3. exact NS2.
           + split; [cbn; rewrite LB1; lia|rewrite defects_upd_cur; exact D1].
         - split; [cbn; exact LB1|]. exists []. split; [reflexivity|reflexivity]. }
-      { cbn. rewrite (moved_code _ _ MV1). exact EC. } { reflexivity. } { reflexivity. } { cbn. exact XD. }
+      { cbn. rewrite (moved_code _ _ MV1). exact EC. } { reflexivity. } { reflexivity. } { exact KB'. } { cbn. exact XD. }
       { exact SK1. } { exists i0, code'. split; assumption. }
       { cbn. rewrite (moved_ns _ _ MV1), ENS, (kept_ns _ _ Ka). reflexivity. }
       { rewrite (kept_base _ _ Ka). exact HBf. }
@@ -841,8 +1083,31 @@ Proof.
       { destruct G0 as (C0 & _). destruct M4 as ((C4 & _) & EF4 & _). eapply neq_by_frames; [exact C0|exact C4|].
         rewrite EF4, EF0. cbn. rewrite (forall2_length _ _ _ KR4), (forall2_length _ _ _ Kb). lia. }
       split; [exact M4|]. split; [exact EV4|]. split; [eapply kept_trans; eassumption|eapply kept_all_trans; eassumption].
-  - (* a round left by exitWith: the loop is over *) intros s x rest0 i body acc v s1 HB IHb.
-    cbn [IterRuns]. intros r c f fc frest below allarr A EC EP EX ED SK LF ENS HBf.
+  - (* a round after which the loop stops (findIf found its element) *) intros k s x rest0 i body acc reg s1 acc1 HB IHb KS KO.
+    cbn [IterRuns]. intros r c f fc frest below allarr b A EC EP EX KB ED SK LF ENS HBf.
+    specialize (IHb r c f fc frest below [] A EC EP HBf). cbn in IHb.
+    destruct IHb as (r1 & c1 & f1 & rest1 & S1 & A1 & MV1 & P1 & K1).
+    inversion K1 as [|fa fc1 ra frest1 Ka Kb Ea Eb]; subst.
+    destruct A as ((G0 & EF0 & _) & _).
+    destruct A1 as ((G1 & EF1 & (F1 & N1) & B1 & D1) & LB1 & top1 & EV1 & RR1).
+    assert (XE : f_exit f1 = Some b) by (rewrite (moved_exit _ _ MV1); exact EX).
+    assert (XD : f_die f1 = false) by (rewrite (moved_die _ _ MV1); exact ED).
+    assert (XP : f_pos f1 = length (f_code f1)) by (rewrite P1, (moved_code _ _ MV1); reflexivity).
+    inversion F1 as [|sc1 f0 scs1 fs1 FM1 F1' E1 E2]; subst.
+    destruct (skipn_cons_nth _ _ _ _ SK) as [NX0 SK1].
+    destruct (kind_over k allarr i _ acc acc1 reg b r1 c1 f1 (fc1 :: frest1) top1 below false KB KS KO NX0) as (top2 & LO & HD).
+    { discriminate. } { exact EF1. } { exact EV1. } { exact LB1. } { exact RR1. }
+    destruct (complete_loop r1 c1 f1 fc1 frest1 b top2 below G1 D1 EF1 XP XE XD LO LB1) as [S2 G2].
+    eexists _, _, fc1, frest1. split; [eapply steps_trans; eassumption|]. split.
+    { destruct G0 as (C0 & _). destruct G2 as (C2 & _). eapply neq_by_frames; [exact C0|exact C2|].
+      cbn. rewrite EF0. cbn. rewrite (forall2_length _ _ _ Kb). lia. }
+    split.
+    { split; [exact G2|]. split; [reflexivity|]. split.
+      - apply match_upd. split; [|exact N1]. cbn. rewrite <- E1. cbn. exact F1'.
+      - split; [cbn; rewrite (kept_base _ _ Ka); lia|rewrite defects_upd_cur; exact D1]. }
+    split; [cbn; rewrite HD; reflexivity|split; assumption].
+  - (* a round left by exitWith: the loop is over *) intros k s x rest0 i body acc v s1 HB IHb.
+    cbn [IterRuns]. intros r c f fc frest below allarr b A EC EP EX KB ED SK LF ENS HBf.
     specialize (IHb r c f fc frest below [] A EC EP HBf). cbn in IHb.
     destruct IHb as (r1 & c1 & fc1 & rest1 & S1 & M1 & EV1 & K1 & KR1).
     exists r1, c1, fc1, rest1. split; [exact S1|]. split.
@@ -882,12 +1147,16 @@ Definition iterate_f (f:nat) :=
                            | sc' :: _ => if String.eqb (sc_name sc') name then (ONormal v, s2) else (OBreak name v, s2)
                            | [] => (OBreak name v, s2) end
         | other => (other, s2) end end end.
-Definition step_foreach : rvalue -> nat -> rvalue -> rvalue -> option (bool * rvalue) :=
-  fun _ _ v _ => Some (true, match v with RNone => RNil | _ => v end).
-Lemma eval_binary_foreach f F s body arr :
-  eval_binary (S f) s "foreach" (RCode body) (RArr arr) (in_scope_f F) plain_scope_f =
-  iterate_f f (S (length arr)) s arr O body true RNil step_foreach.
-Proof. reflexivity. Qed.
+Lemma eval_binary_loop_ca f F s k body arr : kca k = true ->
+  eval_binary (S f) s (kname k) (RCode body) (RArr arr) (in_scope_f F) plain_scope_f =
+  iterate_f f (S (length arr)) s arr O body (kwith k) (kinit k) (kstep k).
+Proof. destruct k; intros H; try discriminate H; reflexivity. Qed.
+Lemma eval_binary_loop_ac f F s k body arr : kca k = false ->
+  eval_binary (S f) s (kname k) (RArr arr) (RCode body) (in_scope_f F) plain_scope_f =
+  iterate_f f (S (length arr)) s arr O body (kwith k) (kinit k) (kstep k).
+Proof. destruct k; intros H; try discriminate H; reflexivity. Qed.
+Lemma kvars_iter k i x : (if kwith k then [("_foreachindex", RNum (Z.of_nat i)); ("_x", x)] else [("_x", x)]) = kvars k i x.
+Proof. destruct k; reflexivity. Qed.
 
 Theorem ref_runs_z :
   (forall s e v s', zev s e v s' -> exists f0, forall f, f0 <= f -> eval f s e = (ONormal v, s')) /\
@@ -895,8 +1164,8 @@ Theorem ref_runs_z :
   (forall s reg st reg1 s1, zstmt s reg st reg1 s1 -> exists f0, forall f, f0 <= f -> forall rest,
       eval_block (S f) s (st :: rest) reg = cont f rest s1 reg1) /\
   (forall s reg b out s', zblock s reg b out s' -> exists f0, forall f, f0 <= f -> eval_block f s b reg = (oc out, s')) /\
-  (forall s arr i body acc acc' s', ziter s arr i body acc acc' s' -> exists f0, forall f, f0 <= f -> forall k, length arr < k ->
-      iterate_f f k s arr i body true acc step_foreach = (ONormal acc', s')).
+  (forall k s arr i body acc acc' s', ziter k s arr i body acc acc' s' -> exists f0, forall f, f0 <= f -> forall kk, length arr < kk ->
+      iterate_f f kk s arr i body (kwith k) acc (kstep k) = (ONormal acc', s')).
 Proof.
   apply z_ind.
   - (* pure *) intros s e v HE. exists (esize e). intros f L. exact (proj2 (proj1 (pure_ref _ _) e v HE) s f (renv_ok_of s) L).
@@ -954,12 +1223,24 @@ Proof.
     apply in_scope_out. apply IHx. lia.
   - (* if false exitWith *) intros s n a b x s1 s2 HN HA [fa IHa] HB [fb IHb]. exists (S (S (fa + fb))). intros [|[|f]] L; try lia.
     rewrite eval_S_binary, (IHa (S f)), (IHb (S f)) by lia. rewrite HN. reflexivity.
-  - (* forEach [] *) intros s n a b x s1 s2 HN HA [fa IHa] HB [fb IHb]. exists (S (S (fa + fb))). intros [|[|f]] L; try lia.
-    rewrite eval_S_binary, (IHa (S f)), (IHb (S f)) by lia. rewrite HN. reflexivity.
-  - (* forEach *) intros s n a x body x0 arr s1 s2 acc s3 HN LF HA [fa IHa] HX [fx IHx] HI [fi IHi]. exists (S (S (fa + fx + fi))).
-    intros [|f] L; [lia|]. rewrite eval_S_binary, (IHa f), (IHx f) by lia. rewrite HN.
+  - (* forEach / count [] *) intros s n a x body k s1 s2 HN HK HA [fa IHa] HX [fx IHx]. exists (S (S (fa + fx))). intros [|[|f]] L; try lia.
+    rewrite eval_S_binary, (IHa (S f)), (IHx (S f)) by lia. rewrite <- HN.
+    change (eval_binary (S f) s2 (kname k) (RCode body) (RArr []) (in_scope_f (S f)) plain_scope_f = (ONormal (kinit k), s2)).
+    rewrite (eval_binary_loop_ca f (S f) s2 k body [] HK). reflexivity.
+  - (* [] apply / select / findIf *) intros s n a x body k s1 s2 HN HK HA [fa IHa] HX [fx IHx]. exists (S (S (fa + fx))). intros [|[|f]] L; try lia.
+    rewrite eval_S_binary, (IHa (S f)), (IHx (S f)) by lia. rewrite <- HN.
+    change (eval_binary (S f) s2 (kname k) (RArr []) (RCode body) (in_scope_f (S f)) plain_scope_f = (ONormal (kinit k), s2)).
+    rewrite (eval_binary_loop_ac f (S f) s2 k body [] HK). reflexivity.
+  - (* forEach / count *) intros s n a x body x0 arr k s1 s2 acc s3 HN HK LF HA [fa IHa] HX [fx IHx] HI [fi IHi]. exists (S (S (fa + fx + fi))).
+    intros [|f] L; [lia|]. rewrite eval_S_binary, (IHa f), (IHx f) by lia. rewrite <- HN.
     destruct f as [|f]; [lia|].
-    rewrite eval_binary_foreach. apply IHi; [lia|cbn; lia].
+    change (eval_binary (S f) s2 (kname k) (RCode body) (RArr (x0 :: arr)) (in_scope_f (S f)) plain_scope_f = (ONormal acc, s3)).
+    rewrite (eval_binary_loop_ca f (S f) s2 k body _ HK). apply IHi; [lia|cbn; lia].
+  - (* apply / select / findIf *) intros s n a x body x0 arr k s1 s2 acc s3 HN HK LF HA [fa IHa] HX [fx IHx] HI [fi IHi]. exists (S (S (fa + fx + fi))).
+    intros [|f] L; [lia|]. rewrite eval_S_binary, (IHa f), (IHx f) by lia. rewrite <- HN.
+    destruct f as [|f]; [lia|].
+    change (eval_binary (S f) s2 (kname k) (RArr (x0 :: arr)) (RCode body) (in_scope_f (S f)) plain_scope_f = (ONormal acc, s3)).
+    rewrite (eval_binary_loop_ac f (S f) s2 k body _ HK). apply IHi; [lia|cbn; lia].
   - (* no elements *) intros s. exists 0. intros f _ acc. cbn. rewrite app_nil_r. reflexivity.
   - (* elements *) intros s e v s1 l vs s2 HE [fe IHe] NN HL [fl IHl]. exists (fe + fl). intros f L acc.
     cbn [go_arr]. rewrite (IHe f) by lia. fold (go_arr f).
@@ -983,15 +1264,18 @@ Proof.
     rewrite eval_binary_exitwith.
     rewrite (in_scope_out (S f) s2 (plain_scope_f s2 []) b out s3) by (apply IHb; lia).
     reflexivity.
-  - (* no more rounds *) intros s i body acc. exists 0. intros f _ [|k] L; [cbn in L; lia|]. reflexivity.
-  - (* a round, then the rest *) intros s x rest0 i body acc reg s1 acc' s' HB [fb IHb] HI [fi IHi]. exists (fb + fi).
-    intros f L [|k] LK; [lia|]. cbn [iterate_f]. fold (iterate_f f).
-    change (push_scope s (plain_scope_f s [("_foreachindex", RNum (Z.of_nat i)); ("_x", x)])) with (enter s [("_foreachindex", RNum (Z.of_nat i)); ("_x", x)]).
-    rewrite (IHb f) by lia. cbn [oc]. unfold step_foreach at 1.
-    change (match reg with RNone => RNil | _ => reg end) with (res_of reg).
+  - (* no more rounds *) intros k s i body acc. exists 0. intros f _ [|kk] L; [cbn in L; lia|]. reflexivity.
+  - (* a round, then the rest *) intros k s x rest0 i body acc reg s1 acc1 acc' s' HB [fb IHb] KS KO HI [fi IHi]. exists (fb + fi).
+    intros f L [|kk] LK; [lia|]. cbn [iterate_f]. fold (iterate_f f). rewrite kvars_iter.
+    change (push_scope s (plain_scope_f s (kvars k i x))) with (enter s (kvars k i x)).
+    rewrite (IHb f) by lia. cbn [oc]. rewrite KS.
     apply IHi; [lia|cbn in LK; lia].
-  - (* a round left by exitWith *) intros s x rest0 i body acc v s1 HB [fb IHb]. exists fb.
-    intros f L [|k] LK; [lia|]. cbn [iterate_f]. fold (iterate_f f).
-    change (push_scope s (plain_scope_f s [("_foreachindex", RNum (Z.of_nat i)); ("_x", x)])) with (enter s [("_foreachindex", RNum (Z.of_nat i)); ("_x", x)]).
+  - (* a round after which the loop stops *) intros k s x rest0 i body acc reg s1 acc1 HB [fb IHb] KS KO. exists fb.
+    intros f L [|kk] LK; [lia|]. cbn [iterate_f]. fold (iterate_f f). rewrite kvars_iter.
+    change (push_scope s (plain_scope_f s (kvars k i x))) with (enter s (kvars k i x)).
+    rewrite (IHb f) by lia. cbn [oc]. rewrite KS. reflexivity.
+  - (* a round left by exitWith *) intros k s x rest0 i body acc v s1 HB [fb IHb]. exists fb.
+    intros f L [|kk] LK; [lia|]. cbn [iterate_f]. fold (iterate_f f). rewrite kvars_iter.
+    change (push_scope s (plain_scope_f s (kvars k i x))) with (enter s (kvars k i x)).
     rewrite (IHb f) by lia. reflexivity.
 Qed.
